@@ -295,6 +295,7 @@ func TestCiphersAndMACsVsGo(t *testing.T) {
 			if Ciphers[ciph].AEAD && mac != allMACNames[0] {
 				continue
 			}
+			t.Logf("tuple %s %s", ciph, mac)
 			// re-keys from both sides in both set-ups
 			runRefClientGoServer(t, "curve25519-sha256", "ssh-ed25519", "ed25519", ciph, mac, 7000, 9000)
 			runGoClientRefServer(t, "curve25519-sha256", "ssh-ed25519", keys["ed25519"].hk, keys["ed25519"].signer.PublicKey(), ciph, mac, EchoOptions{RekeyEvery: 8000, RekeyAfterAuth: true}, 5000, nil)
